@@ -24,7 +24,8 @@ def executable_lines(path):
         if co.co_name != "<module>" and ls:
             body = sorted(set(ls))
             funcs[co.co_qualname] = body[1] if len(body) > 1 else body[0]
-        lines.update(ls)
+        if co.co_flags & 0x1:     # CO_OPTIMIZED: function bodies only (module and class bodies run at import, before the monitor starts)
+            lines.update(ls[1:] if len(ls) > 1 else ls)
         for c in co.co_consts:
             if hasattr(c, "co_lines"):
                 stack.append(c)
@@ -69,6 +70,17 @@ def stop():
     return {p: sorted(v) for p, v in _state["files"].items()}
 
 
+def _ranges(ls):
+    out, i = [], 0
+    while i < len(ls):
+        j = i
+        while j + 1 < len(ls) and ls[j + 1] <= ls[j] + 1:
+            j += 1
+        out.append(str(ls[i]) if i == j else "%d-%d" % (ls[i], ls[j]))
+        i = j + 1
+    return ",".join(out)
+
+
 def summarise(repo, merged):
     """merged: {abs path: set(lines)} -> evidence dict"""
     out = {}
@@ -78,7 +90,8 @@ def summarise(repo, merged):
         hit = set(hit) & ex if ex else set(hit)
         never = sorted(q for q, l in funcs.items() if l not in hit and not q.split(".")[-1].startswith("__"))
         rel = os.path.relpath(p, os.path.realpath(repo))
-        out[rel] = {"executed_lines": len(hit), "executable_lines": len(ex), "functions_never_entered": never[:40]}
+        out[rel] = {"executed_lines": len(hit), "executable_lines": len(ex), "functions_never_entered": never[:40],
+                    "lines_not_executed": _ranges(sorted(ex - hit))[:600]}
         tot_e += len(hit)
         tot_x += len(ex)
     return {"anchor_files": out, "anchor_line_reach": round(tot_e / tot_x, 3) if tot_x else None}
